@@ -191,8 +191,9 @@ pub struct Wire {
     /// succeeds; the receiving side sees only flushed bytes (an OS-buffered port)
     pub hold_until_flush: bool,
     pub flushed_len: usize,
-    /// nothing new arrives for the moment: every read at a frame boundary is answered "no
-    /// data yet" while this is set (the harness sets it around a single call)
+    /// nothing new arrives for the moment: every read is answered "no data yet" while this is
+    /// set (the harness sets it around a single call that starts at a frame boundary for a
+    /// blocking receiver, anywhere for a resumable one)
     pub freeze: bool,
     /// a call into the link object that receives from this wire is in progress - a poll, a
     /// tick, a send, an exchange (set by the harness around the call; constructing the object
@@ -404,7 +405,8 @@ impl Dev {
             }
             return Arrival::NotYet;
         }
-        if at_b && self.rx.borrow().freeze {
+        if self.rx.borrow().freeze {
+            // (at any position: a resumable receiver may have left off in the middle of a frame)
             return Arrival::NotYet;
         }
         if drain {
@@ -834,7 +836,8 @@ impl io::Read for Dev {
         }
         // inside a frame the data is there (whole frames are supplied): no timeout
         let at_b = self.rx.borrow().at_boundary();
-        let arrival = if at_b || avail == 0 {
+        let frozen = self.rx.borrow().freeze;
+        let arrival = if at_b || avail == 0 || frozen {
             self.arrival()
         } else {
             Arrival::Deliver
